@@ -231,8 +231,10 @@ def shrink(prop, scenario, tape_sparse, signature, budget_s=45.0):
 
 def write_replay(prop, signature, scenario, tape_sparse, detail, seed, index,
                  minimized):
-    os.makedirs(os.path.join(VERIF, 'replays'), exist_ok=True)
-    path = os.path.join(VERIF, 'replays', '%s-%s.json'
+    rdir = os.environ.get('VERIF_REPLAY_DIR') or os.path.join(VERIF,
+                                                              'replays')
+    os.makedirs(rdir, exist_ok=True)
+    path = os.path.join(rdir, '%s-%s.json'
                         % (prop.ID, signature_hash(signature)))
     with open(path, 'w') as f:
         json.dump({'property': prop.ID, 'signature': signature,
